@@ -225,6 +225,10 @@ func c02eval(cas c02case) *Violation {
 		}
 		if cas.Prior {
 			o := slog.New("other").SetWriter(io.Discard).SetErrorWriter(io.Discard).SetLevel(slog.AlwaysLevel).SetColorMode(true)
+			// blank lines first (they take a shortcut through the print path), then a multi-line coloured record
+			o.Println()
+			o.Print("")
+			o.Print("\n")
 			o.Error("prior line one\nprior line two\n", "err", errors.New("prior"), slog.Group("pg", "x", 1), slog.Group("pz"))
 		}
 		pan = c02issue(ent, l, msg, mkArgs())
@@ -355,6 +359,13 @@ func c02cases(thorough bool, emit func(c02case)) {
 		for _, e := range ents {
 			for _, f := range formats {
 				emit(c02case{Layer: "A-args", Entry: e.name, MsgQ: qk("m"), Args: l, Format: f, Level: int(slog.TraceLevel), Dest: len(l) % 3})
+				for _, a := range l {
+					if a == "Stringer that logs" {
+						// a value that logs while its record is formatted, after the pools were used by blank lines and another logger
+						emit(c02case{Layer: "A2-args-after-prior-records", Entry: e.name, MsgQ: qk("m"), Args: l, Format: f, Level: int(slog.TraceLevel), Dest: len(l) % 3, Prior: true})
+						break
+					}
+				}
 			}
 		}
 	}
